@@ -71,6 +71,28 @@ def inventory(P: Program) -> Dict[str, GlobalVar]:
                     for tt in (t.elts if isinstance(t, (ast.Tuple, ast.List)) else [t]):
                         if isinstance(tt, ast.Subscript):
                             bases.append(tt.value)
+            # module-level OBJECTS (instances built at import) mutated through their fields, possibly via a local alias: `g = _GRAPH; g.items[k] = v`
+            for base in bases:
+                root = base
+                depth_ = 0
+                while isinstance(root, (ast.Attribute, ast.Subscript)):
+                    root = root.value
+                    depth_ += 1
+                if not (isinstance(root, ast.Name) and depth_ >= 1):
+                    continue
+                gname = None
+                if root.id in m.assigns and not _is_local(f, root.id) and root.id not in f.params:
+                    gname = root.id
+                elif _is_local(f, root.id) and root.id not in f.params:
+                    adefs = [d.value for d in walk_no_nested(f.node) if isinstance(d, (ast.Assign, ast.AnnAssign)) and d.value is not None
+                             and any(isinstance(t, ast.Name) and t.id == root.id for t in (d.targets if isinstance(d, ast.Assign) else [d.target]))]
+                    if len(adefs) == 1 and isinstance(adefs[0], ast.Name) and adefs[0].id in m.assigns and not _is_local(f, adefs[0].id):
+                        gname = adefs[0].id
+                if gname is None:
+                    continue
+                ini = m.assigns[gname]
+                if isinstance(ini, ast.Call) and not _mutable_init(ini) and (dotted(ini.func) or "").split(".")[-1] not in ("frozenset", "tuple", "compile", "TypeVar", "getLogger", "Lock", "RLock", "local"):
+                    gv(f"{m.name}.{gname}", "module", src(ini)).mutators.setdefault(f.qualname, []).append(n.lineno)
             for base in bases:
                 q = None
                 init = ""
